@@ -226,21 +226,28 @@ class SplitFileMerger(RawIOBase):
 
         full_data = []
 
+        # the position is only moved once the data is there: a piece that raises leaves it where it was
+        position = self._fake_seek
         while True:
             info = self._files[current_index]
             fh = info[0]
-            real_seek = self._fake_seek - info[1]
+            real_seek = position - info[1]
             to_read = min(info[2] - real_seek, left)
 
             fh.seek(real_seek)
-            full_data.append(fh.read(to_read))
-            self._fake_seek += to_read
+            data = fh.read(to_read)
+            full_data.append(data)
+            position += len(data)
+            if len(data) < to_read:
+                # this piece holds less than its declared size: what follows sits at later positions, so the read ends here
+                break
 
             left -= to_read
             if left <= 0:
                 break
             current_index += 1
 
+        self._fake_seek = position
         self._seek_info = (current_index, self._fake_seek - self._files[current_index][1])
 
         return b''.join(full_data)
